@@ -32,7 +32,11 @@ try:
     out['demo_patched_exit'] = r1.returncode
     out['demo_patched_tail'] = (r1.stdout + r1.stderr)[-400:]
     if a.tests:
-        rt = subprocess.run(['/verif/tools/run_repo_tests.sh', wt], capture_output=True, text=True)
+        # in a private network namespace: the listener tests bind fixed
+        # ports and would collide with other test runs on this machine
+        rt = subprocess.run(['unshare', '-rn', 'sh', '-c',
+                             'ip link set lo up; exec /verif/tools/run_repo_tests.sh "$0"', wt],
+                            capture_output=True, text=True)
         out['repo_tests_exit'] = rt.returncode
         out['repo_tests_tail'] = rt.stdout[-600:]
     out['checks'] = {}
